@@ -678,19 +678,237 @@ func c11ServerChain(w *core.W, j int) {
 	w.NontrivialStr("server-chain", fmt.Sprint(j))
 }
 
+// c11PublicAPI drives the exported entry points as a caller has them - TsigGenerate / TsigVerify with a
+// base64 secret, TsigGenerateWithProvider / TsigVerifyWithProvider with a key table - at the wall-clock
+// time the verifier reads itself. Every verdict is bracketed: the clock is read before and after the
+// call, and a verdict is taken only when the signing time lies at least 5 s inside (must verify) or
+// outside (must fail with ErrTime) the window for both readings; otherwise the case counts as undecided.
+func c11PublicAPI(w *core.W, j int) {
+	g := model.NewGen(w.Rng(j))
+	g.NoHuge = true
+	g.MaxOpaque = 30
+	r := g.R
+	alg := tsigAlgs[j%len(tsigAlgs)]
+	secret := g.Bytes(1 + r.IntN(64))
+	secretB64 := base64.StdEncoding.EncodeToString(secret)
+	keyName := model.Name{[]byte("Pub"), []byte(fmt.Sprintf("k%d", j%5)), []byte("example")}
+	var mm *model.Msg
+	if j%2 == 0 {
+		mm = &model.Msg{ID: uint16(r.IntN(65536)), Bits: 0x0100, Q: []model.Question{{Name: model.Name{[]byte("q"), []byte("example")}, Type: 1, Class: 1}}}
+	} else {
+		mm = genMsg(g, c01Layouts(), 1+r.IntN(3))
+		var ar []*model.Rec
+		for _, x := range mm.Ar {
+			if x.Type != 41 {
+				ar = append(ar, x)
+			}
+		}
+		mm.Ar = ar
+		mm.Bits &^= 0x000F
+	}
+	if len(mm.Wire()) > 4000 {
+		return
+	}
+	base, err := buildMsgAny(mm)
+	if err != nil {
+		return
+	}
+	var reqMAC []byte
+	if j%3 == 1 {
+		reqMAC = g.Bytes([]int{20, 32, 64}[r.IntN(3)])
+	}
+	timersOnly := j%6 == 4 && len(reqMAC) > 0
+	reqMACHex := hex.EncodeToString(reqMAC)
+	fudge := []uint16{300, 30, 65535, 10, 0}[(j/5)%5]
+	effFudge := int64(fudge)
+	if fudge == 0 {
+		effFudge = 300
+	}
+	provider := dns.VerifTsigSecretProvider(map[string]string{keyName.Pres(): secretB64})
+	otherProvider := dns.VerifTsigSecretProvider(map[string]string{"another-key.example.": secretB64})
+	secrets := map[string][]byte{keyName.Lower().Pres(): secret}
+	key := func(s string) string { return "C11/public-api/" + s }
+	const margin = 5
+
+	// offsets of the signing time relative to the verifier's clock, and whether the statement wants success
+	type off struct {
+		d    int64
+		want bool
+		zero bool // leave the stub's time unset: TsigGenerate stamps the current time
+	}
+	offs := []off{{0, true, false}, {0, true, true}, {-(effFudge - margin), true, false}, {effFudge - margin, true, false}, {-(effFudge + margin), false, false}, {effFudge + margin, false, false}}
+	for _, o := range offs {
+		t0 := time.Now().Unix()
+		signedAt := t0 + o.d
+		m := base.Copy()
+		if o.zero {
+			m.SetTsig(keyName.Pres(), alg, fudge, 0)
+		} else {
+			m.SetTsig(keyName.Pres(), alg, fudge, signedAt)
+		}
+		wit := map[string]any{"alg": alg, "secret": hx(secret), "request_mac": reqMACHex, "timers_only": timersOnly, "model_wire": hx(mm.Wire()), "offset_from_now": o.d, "fudge": fudge, "stub_time_unset": o.zero}
+		var out []byte
+		var mac string
+		var gerr error
+		viaProvider := j%2 == 1
+		w.Eval(1)
+		if w.Guard("TsigGenerate(public)", wit, func() {
+			if viaProvider {
+				out, mac, gerr = dns.TsigGenerateWithProvider(m, provider, reqMACHex, timersOnly)
+			} else {
+				out, mac, gerr = dns.TsigGenerate(m, secretB64, reqMACHex, timersOnly)
+			}
+		}) {
+			return
+		}
+		if gerr != nil {
+			w.Violation(key("generate-fails/"+alg), fmt.Sprintf("signing a well-formed message fails: %v", gerr), wit)
+			return
+		}
+		wit["signed"] = hx(out)
+		no, ts, _, ok := model.SplitTSIG(out)
+		if !ok {
+			w.Violation(key("generate-shape"), "the output does not end in a well-formed TSIG record", wit)
+			return
+		}
+		tAfterGen := time.Now().Unix()
+		if o.zero {
+			// the time stamped by the library lies between the two clock readings
+			if int64(ts.TimeSigned) < t0 || int64(ts.TimeSigned) > tAfterGen {
+				w.Violation(key("unset-time-not-stamped-with-now"), fmt.Sprintf("stub without a time: TSIG carries %d, the clock showed %d before and %d after the call", ts.TimeSigned, t0, tAfterGen), wit)
+			}
+			w.Count("public_unset_time_stubs", 1)
+		} else if int64(ts.TimeSigned) != signedAt {
+			w.Violation(key("generate-shape/time"), fmt.Sprintf("TSIG carries time %d, the stub said %d", ts.TimeSigned, signedAt), wit)
+		}
+		if int64(ts.Fudge) != effFudge {
+			w.Violation(key("generate-shape/fudge"), fmt.Sprintf("TSIG carries fudge %d, want %d", ts.Fudge, effFudge), wit)
+		}
+		wantMAC, derr := ts.Digest(no, secret, reqMAC, timersOnly)
+		if derr != nil || !bytes.Equal(wantMAC, ts.MAC) || hex.EncodeToString(ts.MAC) != mac {
+			w.Violation(key("generate-mac/"+alg), fmt.Sprintf("MAC in the output %x (returned %s) is not the RFC 8945 HMAC %x", ts.MAC, mac, wantMAC), wit)
+			return
+		}
+		w.Nontrivial(out)
+		// verification through both exported verifiers; the clock is read again afterwards
+		type ver struct {
+			name string
+			f    func(b []byte, rm string, to bool) error
+		}
+		vers := []ver{
+			{"TsigVerify", func(b []byte, rm string, to bool) error { return dns.TsigVerify(b, secretB64, rm, to) }},
+			{"TsigVerifyWithProvider", func(b []byte, rm string, to bool) error { return dns.TsigVerifyWithProvider(b, provider, rm, to) }},
+		}
+		for _, v := range vers {
+			call := func(b []byte, rm string, to bool) (error, bool) {
+				cp := append([]byte(nil), b...)
+				var verr error
+				if w.Guard(v.name+"(public)", wit, func() { verr = v.f(cp, rm, to) }) {
+					return nil, false
+				}
+				w.Eval(1)
+				return verr, true
+			}
+			verr, ok := call(out, reqMACHex, timersOnly)
+			t1 := time.Now().Unix()
+			if !ok {
+				return
+			}
+			// decided only if the verdict is the same for every clock value the verifier can have read
+			d0, d1 := t0-int64(ts.TimeSigned), t1-int64(ts.TimeSigned)
+			in := func(d int64) bool {
+				if d < 0 {
+					d = -d
+				}
+				return d <= effFudge
+			}
+			if in(d0) != in(d1) || t1-t0 > margin-1 {
+				w.Count("public_window_undecided", 1)
+				continue
+			}
+			if in(d0) != o.want {
+				w.Count("public_window_undecided", 1)
+				continue
+			}
+			w.Count("public_window_checks", 1)
+			w.Cover("public_verifier", v.name)
+			if o.want && verr != nil {
+				w.Violation(key("own-output-rejected/"+v.name+"/"+alg), fmt.Sprintf("%s rejects what TsigGenerate signed %+d s from now (fudge %d): %v", v.name, o.d, effFudge, verr), wit)
+				continue
+			}
+			if !o.want {
+				if verr == nil {
+					w.Violation(key("accepts-outside-window/"+v.name), fmt.Sprintf("%s accepts a message signed %+d s from now with fudge %d", v.name, o.d, effFudge), wit)
+				} else if !errors.Is(verr, dns.ErrTime) {
+					w.Violation(key("window-error-kind/"+v.name), fmt.Sprintf("outside the window the error is %v, want ErrTime", verr), wit)
+				}
+				continue
+			}
+			// soundness of the exported verifiers at the real time: alterations
+			alter := func(name string, b []byte, rm []byte, to bool) {
+				verr, ok := call(b, hex.EncodeToString(rm), to)
+				if !ok {
+					return
+				}
+				w.Cover("public_alteration", name)
+				if verr != nil {
+					w.Count("public_alterations_rejected", 1)
+					return
+				}
+				sec := secrets
+				if v.name == "TsigVerify" {
+					// TsigVerify is given one secret and no key table: whatever name the record carries, "the
+					// secret of the named key" is that secret (in a timers-only digest the name is not even covered)
+					if _, t2, _, ok2 := model.SplitTSIG(b); ok2 {
+						sec = map[string][]byte{t2.KeyName.Lower().Pres(): secret}
+					}
+				}
+				if ma, why := c11ModelVerify(b, sec, rm, to, uint64(time.Now().Unix())); !ma {
+					w.Violation(key("accepts-altered/"+v.name+"/"+name), fmt.Sprintf("%s accepts after the alteration %q, the independent RFC 8945 check says: %s", v.name, name, why), map[string]any{"altered": hx(b), "original": hx(out), "alg": alg, "request_mac": hex.EncodeToString(rm), "timers_only": to})
+				}
+			}
+			for k := 0; k < 24; k++ {
+				bit := r.IntN(len(out) * 8)
+				b := append([]byte(nil), out...)
+				b[bit/8] ^= 1 << (bit % 8)
+				alter("bit/"+c11Region(out, bit/8), b, reqMAC, timersOnly)
+			}
+			alter("structure/tsig-removed", append([]byte(nil), no...), reqMAC, timersOnly)
+			alter("context/request-mac-altered", out, append(append([]byte(nil), reqMAC...), 1), timersOnly)
+			if len(reqMAC) > 0 {
+				alter("context/request-mac-missing", out, nil, timersOnly)
+				alter("context/timers-only-toggled", out, reqMAC, !timersOnly)
+			}
+		}
+		// a wrong secret (TsigVerify) and a key table without the key (TsigVerifyWithProvider)
+		if o.want {
+			cp := append([]byte(nil), out...)
+			if verr := dns.TsigVerify(cp, base64.StdEncoding.EncodeToString(append([]byte{7}, secret...)), reqMACHex, timersOnly); verr == nil {
+				w.Violation(key("accepts-altered/TsigVerify/wrong-secret"), "TsigVerify succeeds with a different secret", wit)
+			}
+			cp = append([]byte(nil), out...)
+			if verr := dns.TsigVerifyWithProvider(cp, otherProvider, reqMACHex, timersOnly); verr == nil {
+				w.Violation(key("accepts-altered/TsigVerifyWithProvider/unknown-key"), "TsigVerifyWithProvider succeeds although the key table does not hold the named key", wit)
+			}
+			w.Count("public_wrong_key_checks", 2)
+		}
+	}
+}
+
 func init() {
 	plan, run := sections(
 		section{"messages", tiered(300, 12000), c11Case},
 		section{"chains", tiered(400, 12000), c11Chain},
 		section{"concurrent", tiered(20, 400), c11Concurrent},
 		section{"server-chain", tiered(50, 1500), c11ServerChain},
+		section{"public-api", tiered(60, 1500), c11PublicAPI},
 	)
 	core.Register(&core.Monitor{
 		ID: "C11", Level: "exploration", Plan: plan, Run: run,
 		Rule: "5 HMAC algorithms x messages (query-only and 1..5-record messages of all types) x secrets of 1..64 octets x {no request MAC, request MAC, request MAC + timers-only} x fudge {1,60,256,300,65535}; " +
 			"oracle = independent RFC 8945 digest (model encoder + crypto/hmac): output shape and MAC, window at t, t+-fudge, t+-(fudge+1), +-65536 multiples via the explicit-now hook; soundness under every single-bit flip (messages <= 160 octets, 200 sampled above), " +
-			"~25 field/context/structure alterations; envelope chains of 1..6 made by the library and by the harness, with removal, reordering, alteration and wrong previous MACs; 8 goroutines signing and verifying their own messages with one shared secret at the same time; non-trivial = distinct signed message / chain",
+			"~25 field/context/structure alterations; envelope chains of 1..6 made by the library and by the harness, with removal, reordering, alteration and wrong previous MACs; 8 goroutines signing and verifying their own messages with one shared secret at the same time; the exported TsigGenerate/TsigVerify (base64 secret) and the WithProvider pair at the wall-clock time they read themselves, signing times 5 s inside and outside the window, stubs without a time (verdicts bracketed by two clock readings, else undecided); non-trivial = distinct signed message / chain",
 		Assumptions: []string{"the CLASS of the TSIG RR on the wire is not part of the statement's acceptance condition (the digest always uses ANY)", "now is passed explicitly through the verif hook VerifTsigVerify"},
-		MinObserved: []string{"generated", "window_checks", "alterations_rejected", "exhaustive_bitflip_messages", "chains", "server_chains"},
+		MinObserved: []string{"generated", "window_checks", "alterations_rejected", "exhaustive_bitflip_messages", "chains", "server_chains", "public_window_checks", "public_alterations_rejected"},
 	})
 }
